@@ -35,7 +35,7 @@ pub fn rule(id: &str) -> String {
 
 pub fn assumptions(id: &str) -> Vec<String> {
     let mut v = vec![
-        "reachable = reached from GameState::initial() or from a parsed legal position through offered actions only, never continued after a reported result".to_string(),
+        "reachable = reached from GameState::initial() or from a parsed legal position through actions the engine offers only: valid_actions() everywhere; valid_actions_no_rep() as well in the legs named ..._through_withheld_actions (properties that do not depend on the repetition rules; the crate documents that list for populating transposition tables); up to 12 offered actions after a reported result in the legs named games_played_on_after_the_result, otherwise never continued after a result".to_string(),
         "harness build = opt-level 3 with overflow-checks and debug-assertions on, applied to the engine crate as well".to_string(),
     ];
     match id {
